@@ -8,7 +8,8 @@ ID = "C07"
 BUDGET = {"quick": 240, "thorough": 4000}
 GARBAGE = ["@@@", "?? garbage ??", "= = 2", ")( +"]
 RULE = ("Programs from G in a free-form layout with one statement per logical line (comments, continuations, "
-        "labels, shared-label DOs, several units). For EVERY statement s (exhaustive per program) and garbage g in "
+        "labels, shared-label DOs, several units; 40% with cpp conditional regions (#if/#else/#endif) around statement "
+        "ranges, single directives and unresolved INCLUDE lines at statement boundaries). For EVERY statement s (exhaustive per program) and garbage g in "
         "{'@@@','?? garbage ??','= = 2',')( +'} (quick: 2 of them), optionally continued over 2-3 lines: "
         "parse(P[s:=g]) raises FortranSyntaxError whose 'at line N' is the last physical line of the replaced "
         "statement and whose '>>>' text is that line. evaluations counts programs; positions_checked counts "
@@ -41,10 +42,37 @@ def build(rnd, tier, flags):
             first_unit_end = st.uid
         sp = lay.span[st.uid]
         stmts.append([sp[0], sp[1], d, st.kind, 0 if first_unit_end is None or st.uid <= first_unit_end else 1])
+    lines = list(lay.lines)
+    extra = 0
+    if r.chance(40) and stmts:
+        # lines that are not statements, at statement boundaries: cpp conditional regions around statement ranges
+        # (with #else / #elif), single directives, unresolved INCLUDE lines
+        ins = []
+        for _ in range(r.n(1, 2)):
+            a = r.n(0, len(stmts) - 1)
+            b = r.n(a, min(len(stmts) - 1, a + 4))
+            ins.append((stmts[a][0], r.pick(["#ifdef DEBUG", "#if defined(X) && Y > 1", "#ifndef NDEBUG"])))
+            if b > a and r.chance(40):
+                m = r.n(a + 1, b)
+                ins.append((stmts[m][0], r.pick(["#else", "#elif Z"])))
+            ins.append((stmts[b][1] + 1, "#endif"))
+        for _ in range(r.n(0, 2)):
+            a = r.n(0, len(stmts) - 1)
+            ins.append((stmts[a][0], r.pick(["#define X 1", "#undef X", "include 'not_there.inc'", "#include \"x.h\"",
+                                             "#line 7 \"f.F90\""])))
+        ins.sort(key=lambda t: t[0])          # stable: same position keeps drawing order
+        extra = len(ins)
+        for pos, text in reversed(ins):
+            lines[pos - 1:pos - 1] = [text]
+        for srec in stmts:
+            sh = sum(1 for pos, _ in ins if pos <= srec[0])
+            srec[0] += sh
+            srec[1] += sh
+    meta["extra_lines"] = extra
     ngar = 2 if tier == "quick" else 4
     gi = r.n(0, len(GARBAGE) - 1)
     garb = [GARBAGE[(gi + k) % len(GARBAGE)] for k in range(ngar)]
-    case = {"lines": lay.lines, "stmts": stmts, "garbage": garb, "cont": r.n(0, 2), "std": std,
+    case = {"lines": lines, "stmts": stmts, "garbage": garb, "cont": r.n(0, 2), "std": std,
             "ignore_comments": r.chance(50), "process_directives": r.chance(30), "meta": meta}
     return case, progs.excluded_counts(g, lay)
 
@@ -69,6 +97,8 @@ def evaluate(case):
     std, ign = case["std"], case["ignore_comments"]
     kw = {"process_directives": True} if case.get("process_directives") else {}
     labels = ["std=" + std, "cont=%d" % case["cont"]] + (["process_directives"] if kw else [])
+    if case.get("meta", {}).get("extra_lines"):
+        labels.append("cpp-or-include-lines")
     o = guarded_parse("\n".join(lines) + "\n", std=std, ignore_comments=ign, **kw)
     if o.kind != "tree":
         return Result(True, None, False, labels, precondition_failed=True)
